@@ -2,7 +2,9 @@
 
 Monitor shape: post-conditions on the real AESxCBC obtained through get_symmetric_encryption_implementation,
 plus an independent recomputation of every ciphertext (hand-written PKCS7 + the `cryptography` AES-CBC primitive
-driven directly with the IV observed in the ciphertext), plus a process-wide (key, IV) uniqueness set and 20 000 encryptions of one (key, message) pair.
+driven directly with the IV observed in the ciphertext), plus a process-wide (key, IV) uniqueness set and 20 000 encryptions of one (key, message) pair, plus a
+"hostile callers" shard: caller-owned bytearrays that are reused, a host that re-seeds `random`, workers forked
+after the first encryption, refused calls followed by valid ones on the same object.
 """
 from vlib.common import fp
 
@@ -22,6 +24,8 @@ def plan(tier, seed):
         specs.append({"name": f"rand{i}", "kind": "rand", "index": i, "cases": 8000 if tier == "quick" else 400000,
                       "budget_s": 60 if tier == "quick" else 420})
     specs.append({"name": "contracts", "kind": "contracts"})
+    specs.append({"name": "hostile-callers", "kind": "hostile", "rounds": 300 if tier == "quick" else 6000,
+                  "forks": 6 if tier == "quick" else 40})
     if tier == "thorough":
         specs.append({"name": "repo-tests", "kind": "repo_tests", "primitive_monitors": False})
     return specs
@@ -120,6 +124,10 @@ def run_shard(spec, acc, ctx):
         from vlib import repotests
         repotests.run(acc, ctx, ["test/test_sse_schemes/test_CJJ14_PiBas.py", "test/test_sse_schemes/test_CT14_Pi.py",
                                  "test/test_sse_schemes/test_CJJ14_PiPack.py"], ["insitu:aes"])
+        return
+    if kind == "hostile":
+        hostile(acc, ctx, spec)
+        acc.sample({"kind": "hostile callers", "rounds": spec["rounds"], "fork_pairs": spec["forks"]})
         return
     if kind == "exh":
         kl = spec["key_length"]
@@ -236,8 +244,158 @@ def run_shard(spec, acc, ctx):
                     pass
 
 
+def forked_ivs(ske, key, m, n):
+    """Fork a child that encrypts (key, m) n times and reports the ciphertexts; None if the child failed."""
+    import os
+    r, w = os.pipe()
+    pid = os.fork()
+    if pid == 0:
+        try:
+            os.close(r)
+            out = b"".join(ske.Encrypt(key, m) for _ in range(n))
+            os.write(w, len(out).to_bytes(4, "big") + out)
+        finally:
+            os._exit(0)
+    os.close(w)
+    data = b""
+    while True:
+        chunk = os.read(r, 1 << 16)
+        if not chunk:
+            break
+        data += chunk
+    os.close(r)
+    os.waitpid(pid, 0)
+    if len(data) < 4 or int.from_bytes(data[:4], "big") != len(data) - 4:
+        return None
+    body = data[4:]
+    cl = len(body) // n
+    return [body[i * cl:(i + 1) * cl] for i in range(n)]
+
+
+def hostile(acc, ctx, spec):
+    """Callers that are legitimate but unkind: caller-owned mutable buffers that are reused, a host program that
+    re-seeds the global `random` generator, worker processes forked after the first encryption, a refused call
+    followed by normal ones on the same object."""
+    import random as global_random
+    import toolkit.symmetric_encryption as se
+    rng = ctx.rng
+    cls = se.get_symmetric_encryption_implementation("AES-CBC")
+    for rnd in range(spec["rounds"]):
+        if ctx.out_of_time():
+            break
+        kl = rng.choice(KEY_LENGTHS)
+        ske = cls(key_length=kl)
+        key = rng.randbytes(kl)
+        m = rng.randbytes(rng.choice([0, 1, 15, 16, 17, 32, rng.randint(0, 200)]))
+        case = {"key": key, "message": m, "hostile": True}
+        acc.count("cases")
+        acc.add("distinct", fp("h", rnd))
+        # ---- (a) caller-owned bytearrays (refusing the type is fine; a changed buffer or a wrong answer is not)
+        acc.count("hostile.bytearray")
+        buf = bytearray(m)
+        try:
+            c = ske.Encrypt(key, buf)
+            if bytes(buf) != m:
+                acc.violation("aes:caller-buffer-mutated:message",
+                              f"Encrypt changed the caller's bytearray message ({len(m)} -> {len(buf)} bytes)", case)
+                continue
+            c_again = ske.Encrypt(key, buf)
+            if len(c_again) != len(c) or ske.Decrypt(key, c) != m or ske.Decrypt(key, c_again) != m:
+                acc.violation("aes:bytearray-message", "a bytearray message does not round-trip", case)
+                continue
+            cb = bytearray(c)
+            if ske.Decrypt(key, cb) != m or bytes(cb) != c:
+                acc.violation("aes:caller-buffer-mutated:ciphertext", "Decrypt of a bytearray ciphertext is wrong or "
+                                                                      "changed the buffer", case)
+                continue
+        except (TypeError, ValueError):
+            acc.count("hostile.bytearray_refused")
+        # one key buffer, overwritten in place between keys: no call may keep using the previous content
+        key2 = rng.randbytes(kl)
+        kbuf = bytearray(key)
+        try:
+            c1 = ske.Encrypt(kbuf, m)
+            kbuf[:] = key2
+            c2 = ske.Encrypt(kbuf, m)
+            if bytes(kbuf) != key2:
+                acc.violation("aes:caller-buffer-mutated:key", "Encrypt changed the caller's key buffer", case)
+                continue
+            if ske.Decrypt(key, c1) != m or ske.Decrypt(key2, c2) != m:
+                acc.violation("aes:reused-key-buffer", "with one key buffer overwritten in place between two keys, a "
+                                                       "ciphertext does not decrypt under the key the buffer held", case)
+                continue
+            kbuf[:] = key
+            if ske.Decrypt(kbuf, c1) != m:
+                acc.violation("aes:reused-key-buffer", "Decrypt with a reused key buffer is wrong", case)
+                continue
+        except (TypeError, ValueError):
+            acc.count("hostile.bytearray_refused")
+        # ---- (b) the host re-seeds / restores the global generator between two encryptions
+        acc.count("hostile.reseed")
+        seed = rng.getrandbits(32)
+        global_random.seed(seed)
+        st = global_random.getstate()
+        ca = ske.Encrypt(key, m)
+        global_random.seed(seed)
+        cb_ = ske.Encrypt(key, m)
+        global_random.setstate(st)
+        cc = ske.Encrypt(key, m)
+        if len({ca, cb_, cc}) != 3:
+            acc.violation("aes:not-randomized:after-reseed",
+                          "two encryptions of (k, m) are equal when the host program re-seeds (or restores the state "
+                          "of) the global random generator in between", case)
+            continue
+        # ---- (c) a refused call, then normal calls on the same object
+        acc.count("hostile.after_refusal")
+        c0 = ske.Encrypt(key, m)
+        for bad in (lambda: ske.Encrypt(rng.randbytes(kl + 1), m), lambda: ske.Decrypt(rng.randbytes(kl - 1), c0),
+                    lambda: ske.Decrypt(key, c0[:-3]), lambda: ske.Encrypt(key, None), lambda: ske.Decrypt(None, c0)):
+            try:
+                bad()
+            except Exception:
+                pass
+            try:
+                ok = ske.Decrypt(key, c0) == m and ske.Decrypt(key, ske.Encrypt(key, m)) == m
+            except Exception as e:
+                ok = False
+            if not ok:
+                acc.violation("aes:wrong-after-refused-call", "after a refused call the same object no longer "
+                                                              "round-trips valid inputs", case)
+                break
+    # ---- (d) workers forked after the parent has already encrypted
+    for f in range(spec["forks"]):
+        kl = KEY_LENGTHS[f % 3]
+        ske = cls(key_length=kl)
+        key, m = rng.randbytes(kl), rng.randbytes(rng.choice([0, 8, 16, 40]))
+        warm = [ske.Encrypt(key, m) for _ in range(1 + f % 3)]
+        a = forked_ivs(ske, key, m, 64)
+        b = forked_ivs(ske, key, m, 64)
+        after = [ske.Encrypt(key, m) for _ in range(64)]
+        acc.count("hostile.fork_pairs")
+        acc.count("cases")
+        acc.add("distinct", fp("f", f))
+        if a is None or b is None:
+            acc.note("a forked child did not report")
+            acc.count("hostile.fork_failed")
+            continue
+        allc = warm + a + b + after
+        if len(set(allc)) != len(allc):
+            acc.violation("aes:not-randomized:across-fork",
+                          f"{len(allc) - len(set(allc))} of {len(allc)} ciphertexts of one (key, message) coincide "
+                          f"between the parent and / or two worker processes forked after the parent's first encryption",
+                          {"key": key, "message": m, "hostile": True})
+            break
+        if any(ske.Decrypt(key, x) != m for x in a[:4] + b[:4]):
+            acc.violation("aes:roundtrip:forked", "a ciphertext produced in a forked worker does not decrypt", {})
+            break
+
+
 def replay(case, acc, ctx):
     import toolkit.symmetric_encryption as se
+    if case.get("hostile"):
+        hostile(acc, ctx, {"rounds": 300, "forks": 6})
+        acc.count("replayed")
+        return
     if "key" in case and "message" in case:
         key, m = case["key"], case["message"]
         ske = se.get_symmetric_encryption_implementation("AES-CBC")(key_length=len(key))
@@ -253,6 +411,8 @@ def finish(m, tier, seed):
         inc.append("exhaustive 0..80 sweep missing for a key length")
     if c.get("contract.message-length", 0) < 10 or c.get("contract.key-length-enc", 0) < 10:
         inc.append("length contracts not exercised")
+    if c.get("hostile.fork_pairs", 0) < 3 or c.get("hostile.reseed", 0) < 100:
+        inc.append("hostile-caller workloads (fork, re-seed, reused buffers) did not run")
     if "toolkit/symmetric_encryption/aes.py:AESxCBC.Encrypt" not in m["sets"].get("functions_entered", []):
         inc.append("AESxCBC.Encrypt never entered")
     lens = sorted(int(x) for x in m["sets"].get("msg_lens", []))
@@ -269,6 +429,7 @@ def finish(m, tier, seed):
         "encryptions_of_one_key_message_pair": c.get("repeat_encryptions", 0),
         "wrong_key": {"raised": c.get("dec.wrong_key.raised", 0), "returned_other": c.get("dec.wrong_key.returned", 0)},
         "contract_checks": {k[9:]: v for k, v in c.items() if k.startswith("contract.")},
+        "hostile_callers": {k[8:]: v for k, v in c.items() if k.startswith("hostile.")},
         "insitu_contract_evaluations": {k: v for k, v in c.items() if k.startswith("insitu.")},
         "repository_tests_under_monitors": {k: v for k, v in c.items() if k.startswith("repo_tests.")},
     }
